@@ -598,6 +598,9 @@ def predicates(case, res, sources, bound=None, qrange=None, strong=False):
         if n > info["caps"][k]:
             return "P3: mailbox %s held %d undelivered messages, max_messages %s" % (k, n, info["caps"][k])
     p = case["p"]
+    if info["got"] < min(p, case["N"]):
+        return ("P0: the pipeline came to rest although the consumer is still asking: it received %d of the %d "
+                "chunks it wants" % (info["got"], p))
     for d in sources:
         a = info["counts"].get(d, 0)
         if bound is not None and a > p + bound:
@@ -1059,9 +1062,9 @@ def unit_of(case):
 # ------------------------------------------------------------------------------------------
 # finding F1: the lazy gate counts a subscriber waiting for a buffered message as demand
 # ------------------------------------------------------------------------------------------
-F1_CASE = {"graph": chain(2, savers={0: 1}), "lazy": True, "cap": 3, "p": 1, "N": 12, "via": "components"}
-F1_INPUT = {"case": "source d0 -> plugin d1, in-memory saver on d0, lazy, max_messages 3, consumer takes 1 chunk",
-            "schedule": "the saver of d0 never runs; build:d1 asks for chunk 1; build:d0 runs alone"}
+F1_CASE = {"graph": chain(2, savers={0: 1}), "lazy": True, "cap": 3, "p": 2, "N": 12, "via": "components"}
+F1_INPUT = {"case": "source d0 -> plugin d1, in-memory saver on d0, lazy, max_messages 3, consumer takes 2 chunks",
+            "schedule": "the saver of d0 never runs; the source d0 runs whenever it can"}
 
 
 def f1_witness():
